@@ -23,6 +23,9 @@ def evaluate(res, rows, prop):
         q = sx.parse(req); r = sx.parse(resp); m = sx.parse(out[idx])
         res.corr['evaluations'] += 1
         p, c = unord.ints(q[1]), unord.ints(q[2])
+        if r[0] == 'panic':
+            hbump(res, 'repr:panic')
+            res.corr['impl_failures'].append({'request': req[:3000], 'impl': resp, 'what': 'the array-like comparison (or applying its diff to previous) panicked'}); continue
         cd = unord.canon_udiff(r); md = unord.canon_udiff(m)
         hbump(res, 'repr:' + ('none' if cd is None else cd[0]))
         if cd and cd[0] == 'Modify':
